@@ -167,6 +167,15 @@ VERUS_UNITS = {
             ('final(commands).log() == (if !inserted.matched().contains(e) { old(commands).log() }', 'final(commands).log() == (if inserted.matched().contains(e) { old(commands).log() }', 'ReactCache::schedule_insertion_reaction'),
         ],
     },
+    'cache_revoke': {
+        'template': 'cache_revoke.rs.tpl',
+        'owners': [(r'ReactCache::revoke_(any_entity_event|resource_mutation|broadcast|despawn)_reactor$', ['C06', 'C01', 'C07']),
+                   (r'ReactCache::revoke_component_reactor$', ['C06', 'C01', 'C07']), (r'ComponentReactors::is_empty$', ['C06', 'C01'])],
+        'negctl': [
+            ('ensures revoked(old(self).resource_reactors.view(), final(self).resource_reactors.view(), resource_id, reactor_id),', 'ensures revoked(old(self).resource_reactors.view(), final(self).resource_reactors.view(), resource_id, reactor_id), final(self).resource_reactors.view().dom().contains(resource_id),', 'ReactCache::revoke_resource_mutation_reactor'),
+            ('&&& first_removed(clist(om, t, rtype), clist(nm, t, rtype), reactor_id)', '&&& clist(nm, t, rtype) =~= clist(om, t, rtype)', 'ReactCache::revoke_component_reactor'),
+        ],
+    },
     'lemmas': {
         'template': 'lemmas.rs.tpl',
         'owners': [
@@ -231,9 +240,9 @@ PROPS = {
         note=ENVNOTE,
         explanation='counter, cleanup, broadcast scheduling proved by Verus (unbounded); entity-event scheduling bounded (Kani); runner paths not covered'),
     'C06': dict(category='other', design_ref='DESIGN.md 5/C06',
-        text='Verus proves on the verbatim revoke_reactor / revoke_entity_reactor, for tokens of ANY length, that every element of the token is processed, in order, by exactly the revocation its kind names (right table, right key, right reaction type, the token\'s id), entity-scoped elements being skipped - not aborting the walk - when the entity is gone. The per-table revocations assumed there are discharged by Kani on the real functions for lists of length 0..3 (all ids symbolic): revoke_X removes exactly the first entry of the id from the named list, keeps the others in order, leaves sibling lists / other keys untouched, and is a no-op for an absent id or key; EntityReactors::remove deletes exactly the (type, id) matches. Lemma L3 (Verus): over any history on one key, the number of live entries of an id is registrations minus effective revocations, other ids unaffected.',
+        text='Verus proves on the verbatim revoke_reactor / revoke_entity_reactor, for tokens of ANY length, that every element of the token is processed, in order, by exactly the revocation its kind names (right table, right key, right reaction type, the token\'s id), entity-scoped elements being skipped - not aborting the walk - when the entity is gone. The per-table revocations assumed there are themselves proved for lists of ANY length: all five ReactCache::revoke_* remove exactly the first entry of the id from the named list, keep every other entry, leave sibling lists / other keys / other tables untouched, are a no-op for an absent id or key, and drop the map entry exactly when its lists are empty (Verus, verbatim modulo two stated normalizations: Vec as an assumed sequence stand-in whose iter().enumerate() Verus\' for-loops understand, and `if C { continue; } REST` read as `if C {} else { REST }`); the same contract is discharged on the compiled code with std\'s Vec by Kani for lists of length 0..4 (multiset comparison); EntityReactors::remove deletes exactly the (type, id) matches (Kani, L<=4). Lemma L3 (Verus): over any history on one key, the number of live entries of an id is registrations minus effective revocations, other ids unaffected.',
         note=ENVNOTE + '; the assumed effects of the callees in unit `revoke` are uninterpreted functions - their meaning is fixed by the Kani contracts, the correspondence is by review',
-        explanation='token walk proved unbounded (Verus, verbatim); per-table removal bounded L<=3 (Kani, real code); history lemma L3'),
+        explanation='token walk and the five type-wide revoke_* proved unbounded (Verus); per-entity removal and a compiled-code restatement bounded (Kani); history lemma L3'),
     'C07': dict(category='other', design_ref='DESIGN.md 5/C07 + 9.5',
         text='Handle-balance contracts on the real code: ReactorMode::prepare gives a persistent reactor a plain handle (never ref-counted, hence never collected) and every other mode a signal for exactly the reactor\'s entity (Verus, verbatim); each of the 11 trigger types registers exactly ONE clone of the handle per trigger into the table its reactor_type() names, none for a despawn trigger on a dead entity, and register_entity_reactor stores none when the entity is gone (Verus, verbatim, generic); register_* store exactly the handle they are given (Verus, unbounded); revoke_* / EntityReactors::remove drop exactly the matching entries and no neighbour (Kani, L<=3); DespawnAccessTracker holds the in-flight handle from start to end and end drops it (Verus); the signal itself is an exact reference count: the reactor\'s id is sent to the despawner exactly once, at the drop of the last clone (Kani on real std::sync::Arc + the assumed channel, 1..3 clones; lemma L4). Level other: garbage_collect_entities, schedule_despawn_reactions and the runner\'s collection points are NOT discharged (CBMC cost / outside Verus\' subset), so "despawned by the first collection after the last handle disappears" is carried only up to the despawn request.',
         note=ENVNOTE + '; Arc/channel: sequential semantics; garbage collection itself assumed',
